@@ -23,7 +23,9 @@ def monitor(p, r):
     ua = scope.unresolved(after)
     if ua is None:
         return  # does not compile any more: C01's violation, not C02's
-    new = sorted(ua - ub)
+    # a module-level use that precedes every binding of the name already resolves to nothing in the original (the property's
+    # exception); `unresolved` does not model order, so those names are taken out here
+    new = sorted(ua - ub - scope.used_before_bound(r.before))
     if new:
         yield ("unbound:" + ",".join(new[:3]), f"names unresolved after the rewrite but not before: {new}")
 
@@ -41,7 +43,7 @@ def explore(tier, seed):
     coverage["oracle_selftest"] = sf
     violations += seq_viol
     assumptions = [
-        "name resolution follows CPython's symtable; order of binding and use inside a scope is not modelled (a name bound anywhere at module level counts as bound)",
+        "name resolution follows CPython's symtable; order of binding and use inside a scope is not modelled (a name bound anywhere at module level counts as bound), except that a module-level use preceding every module-level binding of its name counts as already unresolved in the original",
         "modules with star imports and inputs that only pass the parser are not applicable (counted, not judged)",
         "batched execution is sound by sibling independence (C11e); every new candidate is re-executed alone through the CLI twice",
     ]
